@@ -142,6 +142,26 @@ Theorem C09_json_one_row : forall (A : Type) (h : list (string * A)) (k : string
   json_count k (run_json h) = if in_dec string_dec k (map fst h) then 1 else 0.
 Proof. exact @json_one_row. Qed.
 
+(* ONE store object (a DirectoryPaths / DatabasePaths / Fit) used again and again: for EVERY history of saves and loads
+   through it, every load returns the value of the LAST save under its name that precedes it -- nothing an earlier load
+   or save left behind can show; this is also what a fresh reader of the same store gets; loads never change the store *)
+Theorem C09_store_latest_wins : forall (A : Type) (h : list (sop A)), run_store [] h = spec_store [] h.
+Proof. exact @store_latest_wins. Qed.
+
+Theorem C09_store_load_returns_last_save : forall (A : Type) (h1 h2 : list (sop A)) (k : string),
+  run_store [] (h1 ++ SLoad k :: h2)
+  = run_store [] h1 ++ (k, assoc string_dec k (rev (saves_of h1))) :: run_store (run_json (saves_of h1)) h2.
+Proof. exact @store_load_returns_last_save. Qed.
+
+Theorem C09_store_load_as_fresh_reader : forall (A : Type) (h1 h2 : list (sop A)) (k : string),
+  nth_error (run_store [] (h1 ++ SLoad k :: h2)) (List.length (run_store [] h1))
+  = Some (k, get_json k (run_json (saves_of h1))).
+Proof. exact @store_load_as_fresh_reader. Qed.
+
+Theorem C09_store_loads_do_not_matter : forall (A : Type) (h1 h2 : list (sop A)),
+  run_store (run_json (saves_of h1)) h2 = run_store (run_json (saves_of (filter is_save h1))) h2.
+Proof. exact @store_loads_do_not_matter. Qed.
+
 (* ================================================================ HEADLINE, the code as it is now (b5615dc: samples.csv is
    read by position; 9e9d176 key handling; 04fca50 dict filter): every well-formed tree, every sample list, NO guard on
    parameter names: same value per parameter, log-likelihood, log-prior, weight in order; loading succeeds.
@@ -295,6 +315,10 @@ Print Assumptions C09_tree_csv_legacy_reader.
 Print Assumptions C09_tree_db.
 Print Assumptions C09_value_per_path_recreated.
 Print Assumptions C09_json_latest_wins.
+Print Assumptions C09_store_latest_wins.
+Print Assumptions C09_store_load_returns_last_save.
+Print Assumptions C09_store_load_as_fresh_reader.
+Print Assumptions C09_store_loads_do_not_matter.
 Print Assumptions C09_tree_csv.
 Print Assumptions C09_roundtrip_csv.
 Print Assumptions C09_quantile_between_adjacent.
